@@ -820,9 +820,14 @@ fn c05_check(cfg: &Cfg, rep: &mut Report, case_seed: u64, case: &SmallCase, rand
     if nontrivial {
         rep.nontrivial.insert(hash_str(&case.g.structure_key()));
     }
-    // consumer-loop variant: solver thread + consumer thread, `for m in r` must end
-    if rng.chance(1, 4) {
-        c05_threaded(cfg, rep, case_seed, case, &o, &perm, &want_stable, sort);
+    // consumer-loop variant: solver thread + consumer thread, `for m in r` must end.
+    // The sender handed in may be of any flavour: unbounded, bounded, rendezvous (capacity 0).
+    if rng.chance(1, 2) {
+        let cap = *rng.pick(&[None, None, Some(0usize), Some(1), Some(2), Some(3)]);
+        let two_val = rng.bool();
+        let slow = rng.below(3);
+        let want = if two_val { &want_two } else { &want_stable };
+        c05_threaded(cfg, rep, case_seed, case, &o, &perm, want, sort, cap, two_val, slow);
     }
 }
 
@@ -844,19 +849,34 @@ fn c05_threaded(
     perm: &[usize],
     want: &[Vec<Val>],
     sort: Sort,
+    capacity: Option<usize>,
+    two_val: bool,
+    slow: usize,
 ) {
     let text = o.text.clone();
     let budget = c05_budget(case.g.n);
-    let (s, r) = crossbeam_channel::unbounded::<Vec<Term>>();
+    let (s, r) = match capacity {
+        None => crossbeam_channel::unbounded::<Vec<Term>>(),
+        Some(c) => crossbeam_channel::bounded::<Vec<Term>>(c),
+    };
+    rep.count(&format!("threaded_channel_capacity_{}", capacity.map(|c| c.to_string()).unwrap_or_else(|| "unbounded".into())), 1);
     let solver = std::thread::Builder::new()
         .stack_size(64 << 20)
         .spawn(move || {
             guarded(budget, || {
                 let mut adf = parse_native(&text, sort);
-                adf.stable_nogood_channel(Heuristic::Simple, s);
+                if two_val {
+                    adf.two_val_nogood_channel(Heuristic::Simple, s);
+                } else {
+                    adf.stable_nogood_channel(Heuristic::Simple, s);
+                }
             })
         })
         .expect("spawn");
+    // a consumer that starts late and/or is slower than the solver
+    if slow >= 1 {
+        std::thread::sleep(std::time::Duration::from_millis(2));
+    }
     // consumer loop: must end because the solver drops its sender. Decided on a logical
     // condition (solver thread finished, channel drained, still connected), not on wall-clock time.
     let mut got_models = Vec::new();
@@ -865,7 +885,11 @@ fn c05_threaded(
         match r.recv_timeout(std::time::Duration::from_millis(20)) {
             Ok(m) => {
                 got_models.push(m);
-                std::thread::yield_now();
+                if slow == 2 {
+                    std::thread::sleep(std::time::Duration::from_micros(300));
+                } else {
+                    std::thread::yield_now();
+                }
             }
             Err(crossbeam_channel::RecvTimeoutError::Disconnected) => break,
             Err(crossbeam_channel::RecvTimeoutError::Timeout) => {
@@ -899,7 +923,7 @@ fn c05_threaded(
                 rep.violation(
                     "nogood-threaded-set-differs",
                     d,
-                    replay_of(cfg, case_seed, case, json!({"threaded": true, "sort": sort.name()})),
+                    replay_of(cfg, case_seed, case, json!({"threaded": true, "sort": sort.name(), "capacity": capacity, "two_valued": two_val})),
                 );
             }
         }
